@@ -170,6 +170,35 @@ CHECKS = [
         "code/verb/context. Does not decide freshness under interleaving as a trace property.",
         "note": BASE_NOTE,
     },
+    {
+        "id": "C12",
+        "technique": "static analysis: table exhaustiveness of the probe set (constant folding of role maps and registered payloads), handler coverage by guard dominance, must-write rule, monotone-container rule, restricted exception closure",
+        "text": "Narrow claim - reconstruction for every configuration under every loss pattern is behavioural and not decided. Decides that every "
+        "role the controller can report (all heat-zone classes, sensor role, appliance control, both DHW valves, DHW sensor, each zone's own "
+        "actuator role) is probed by a registered discovery command; that each probed code has a handler branch that attaches what the reply "
+        "names; that a failed send re-arms the next-due time, is fenced, and cannot end the poller; and that the topology containers only "
+        "grow. The explicit LookupError in _get_msg_by_hdr is listed as undecided.",
+        "note": BASE_NOTE,
+    },
+    {
+        "id": "C15",
+        "technique": "static analysis: guarded-single-writer rule for topology fields, produced-keys ⊆ accepted-keys by structural extraction of the voluptuous schemas, regex-language vs index-range agreement (automata)",
+        "text": "Decides that the parent/controller/role fields of the topology are only written in constructors, in Child.set_parent after the "
+        "parent- and controller-change checks, in Parent._add_child under an 'already set and different => SystemSchemaInconsistent' test, or "
+        "from get_device(..., parent=self); that the literal keys produced by the schema properties are accepted by the PREVENT_EXTRA "
+        "validators; that the zone-index domain allowed by max_zones is within the validator's idx regex and Length bound; and the duplicate "
+        "guards. Does not decide that a re-loaded schema reproduces the same objects (execution).",
+        "note": BASE_NOTE,
+    },
+    {
+        "id": "C16",
+        "technique": "static analysis: dominance in the snapshot's admission filter, format agreement of the storage form, argument agreement of the restore path",
+        "text": "Narrow claim - the fixed point snapshot -> restore -> snapshot is behavioural and not decided. Decides that the snapshot filter admits "
+        "no RQ, no W other than 0404 fragments, and no expired packet unless asked (every truthy return dominated by the verb and expiry "
+        "tests); that the stored key/value split of repr(pkt) matches Packet.__repr__/from_dict; and that the restore feeds the packets "
+        "through the gateway's own handler and filter lists.",
+        "note": BASE_NOTE,
+    },
 ]
 
 NOT_APPLICABLE = [
